@@ -8,7 +8,7 @@ from . import core, procmgr, tlc
 
 # clause (and, where it matters, the cause of the request at which it failed) -> owning property
 def owner(clause, cause):
-    if clause in ("ListeningFromUnsafeState", "ExitedWithoutServingThoughSafe"):
+    if clause in ("ListeningFromUnsafeState", "ExitedWithoutServingThoughSafe", "SuccessFromUnsafeDevice"):
         return "C09"
     if clause == "LinkFaultCode":
         return "C11"
@@ -59,6 +59,14 @@ def run_phase(ctx, res, prop, n_quick=36, n_thorough=400):
                                        start_env=(dict(procmgr.GOOD_ENV), "f"), plat=plat, client_lines=given)
         tid = len(traces) + 1
         traces.append({"id": "M%d" % tid, "v1": False, "ev": ev})
+        info["M%d" % tid] = inf
+    for j in range(ctx.pick(6, 60)):
+        v1 = (j % 4 == 3)
+        ev, inf = procmgr.run_lifetime(ctx.scratch, "%s_ur_%d" % (prop, j), True, [], v1, rng,
+                                       start_env=(dict(procmgr.GOOD_ENV), "f"), plat="ledger",
+                                       explicit=procmgr.unsafe_repair_history(rng, v1))
+        tid = len(traces) + 1
+        traces.append({"id": "M%d" % tid, "v1": v1, "ev": ev})
         info["M%d" % tid] = inf
     verdicts, stats = tlc.validate("TraceManager", "Trace_Manager.cfg", traces, shards=4)
     res.checker_cmds.append("tlc -workers 1 -config Trace_Manager.cfg TraceManager (x%d shards)" % stats["jvms"])
